@@ -15,17 +15,22 @@ import (
 	"github.com/dominant-strategies/go-quai/ethdb"
 )
 
-// A tiny Qi universe: four signature-valid single-input Qi transactions. q0..q2 spend three
+// A tiny Qi universe. q0..q3 are signature-valid single-input Qi transactions: q0..q2 spend three
 // different outputs owned by key 0; q3 spends the same output as q0 (a conflicting spend) and pays
 // a different fee. The spent outputs exist in the database handed to the pool, so the pool's real
-// ValidateQiTxInputs / ValidateQiTxOutputsAndSignature accept them.
-const nQi = 4
+// ValidateQiTxInputs / ValidateQiTxOutputsAndSignature accept them. q4..q6 must be rejected:
+// q4 pays to an inactive zone (0-1) AND spends an unknown output, q5 only spends an unknown output,
+// q6 only pays to the inactive zone.
+const (
+	nQiValid = 4
+	nQi      = 7
+)
 
 type qiStatic struct {
 	keys   [2]*ecdsa.PrivateKey
 	bkeys  [2]*btcec.PrivateKey
 	addrs  [2]common.Address
-	outs   [3]types.OutPoint
+	outs   [4]types.OutPoint // outs[3] is not in the database
 	txs    [nQi]*types.Transaction
 	hashes map[common.Hash]int
 }
@@ -62,9 +67,12 @@ func getQi() *qiStatic {
 			hash := common.BytesToHash(h[:])
 			q.outs[i] = *types.NewOutPoint(&hash, 0)
 		}
-		mk := func(out int, denom uint8) *types.Transaction {
+		inactive := append([]byte(nil), q.addrs[1].Bytes()...)
+		inactive[0] = 0x01 // zone 0-1, which is not live at expansion number 0
+		inactive[1] |= 0x80
+		mk := func(out int, denom uint8, to []byte) *types.Transaction {
 			in := types.TxIn{PreviousOutPoint: q.outs[out], PubKey: crypto.FromECDSAPub(&q.keys[0].PublicKey)}
-			o := types.TxOut{Denomination: denom, Address: q.addrs[1].Bytes()}
+			o := types.TxOut{Denomination: denom, Address: to}
 			inner := &types.QiTx{ChainID: chainID, TxIn: types.TxIns{in}, TxOut: types.TxOuts{o}}
 			digest := signer.Hash(types.NewTx(inner))
 			sig, err := schnorr.Sign(q.bkeys[0], digest[:])
@@ -74,10 +82,14 @@ func getQi() *qiStatic {
 			inner.Signature = sig
 			return types.NewTx(inner)
 		}
-		q.txs[0] = mk(0, 4)
-		q.txs[1] = mk(1, 4)
-		q.txs[2] = mk(2, 3)
-		q.txs[3] = mk(0, 2)
+		good := q.addrs[1].Bytes()
+		q.txs[0] = mk(0, 4, good)
+		q.txs[1] = mk(1, 4, good)
+		q.txs[2] = mk(2, 3, good)
+		q.txs[3] = mk(0, 2, good)
+		q.txs[4] = mk(3, 4, inactive)
+		q.txs[5] = mk(3, 3, good)
+		q.txs[6] = mk(1, 2, inactive)
 		for i, tx := range q.txs {
 			q.hashes[tx.Hash()] = i
 		}
@@ -92,7 +104,7 @@ type qiWorld struct {
 
 func newQiWorld(db ethdb.Database, genesis *block) *qiWorld {
 	q := getQi()
-	for i := range q.outs {
+	for i := range q.outs[:3] {
 		entry := types.NewUtxoEntry(types.NewTxOut(5, q.addrs[0].Bytes(), nil))
 		if err := rawdb.CreateUTXO(db, q.outs[i].TxHash, q.outs[i].Index, entry); err != nil {
 			panic("HARNESS: CreateUTXO: " + err.Error())
